@@ -1,4 +1,5 @@
 import CJ.Lemmas.RegistryConc
+import CJ.Lemmas.RegistryWorld
 import CJ.Lemmas.Pipeline
 import CJ.Props.C08
 /-!
@@ -33,10 +34,13 @@ theorem world_step_reach (c : Cfg) (w : World) (i : Nat) (h : Reach c w.st) : Re
         simp only [run] at hops
         rw [← hops]
 
-/-- **Serial reachability**: whatever the threads (any number, any mix of workers, duplicate
-deliveries, sweepers, connection handlers) and whatever the schedule, the registry state is one that
-some *serial* history of registry operations produces. -/
-theorem interleaving_is_serial (c : Cfg) (w : World) (sched : List Nat) (h : Reach c w.st) :
+/-- **Serial at the level of registry operations**: whatever the threads (any number, any mix of
+workers, duplicate deliveries, sweepers, connection handlers) and whatever the schedule, the registry
+state is one that some *serial* history of registry OPERATIONS (critical sections) produces.  This is
+what the lock gives by construction — each thread step is at most one operation — and it is what lets
+every C08 theorem apply to concurrent executions.  It does NOT say that the outcome equals a serial
+order of whole THREADS; see `outcome_serialisable_full` below. -/
+theorem interleaving_is_op_serial (c : Cfg) (w : World) (sched : List Nat) (h : Reach c w.st) :
     Reach c (w.run c sched).st := by
   unfold World.run
   induction sched generalizing w with
@@ -46,13 +50,13 @@ theorem interleaving_is_serial (c : Cfg) (w : World) (sched : List Nat) (h : Rea
 /-- hence the two maps never disagree under any interleaving … -/
 theorem interleaving_inv (c : Cfg) (ths : List Th) (sched : List Nat) :
     Inv (({ st := init, ths := ths } : World).run c sched).st :=
-  reach_inv (interleaving_is_serial c _ sched ⟨[], rfl⟩)
+  reach_inv (interleaving_is_op_serial c _ sched ⟨[], rfl⟩)
 
 /-- … and every C08 guarantee holds after a sweep that follows any interleaving. -/
 theorem interleaving_then_sweep_exact (c : Cfg) (ths : List Th) (sched : List Nat) (now : Nat) (k : Key) :
     let s := (({ st := init, ths := ths } : World).run c sched).st
     tracked (sweep c now s).1 k ↔ ∃ t, tracked s k ∧ s.timeouts[k]? = some t ∧ alive c now t :=
-  sweep_exact c _ (interleaving_is_serial c _ sched ⟨[], rfl⟩) now k
+  sweep_exact c _ (interleaving_is_op_serial c _ sched ⟨[], rfl⟩) now k
 
 /-! ## announced as new exactly once per lifetime -/
 
@@ -159,6 +163,88 @@ theorem visible_only_after_valid (c : Cfg) (s : St) (h : List Op) (hr : ReachH c
   obtain ⟨r, hr1, hv⟩ := lookup_sound s p i hl
   exact valid_only_by_register c s h hr (p, i) ⟨r, hr1, hv⟩
 
+/-! ## the same two clauses for threads, schedules and the event trace -/
+
+/-- **Announced as new exactly once per lifetime, for all threads and schedules**: in the event trace
+of ANY schedule of ANY threads started from the empty registry, between two `new` announcements of a
+registration there is a removal of that registration (and there is at most one before the first
+removal) — duplicate deliveries to several workers, sweeps and connections interleaved at will. -/
+theorem world_announce_once (c : Cfg) (ths : List Th) (hstart : ∀ t ∈ ths, t.atStart = true)
+    (sched : List Nat) (k : Key) :
+    announcedOncePerLifetime k (({ st := init, ths := ths } : World).run c sched).evs :=
+  ((winv_run c _ sched (winv_init c ths hstart)).annOk k).1
+
+/-- … and a registration that is announced and not removed since IS valid (visible to connections) -/
+theorem world_announced_is_valid (c : Cfg) (ths : List Th) (hstart : ∀ t ∈ ths, t.atStart = true)
+    (sched : List Nat) (k : Key)
+    (h : (annSt k (({ st := init, ths := ths } : World).run c sched).evs).1 = true) :
+    validIn (({ st := init, ths := ths } : World).run c sched).st k :=
+  ((winv_run c _ sched (winv_init c ths hstart)).annOk k).2 h
+
+/-- **Visible only after validation, for all threads and schedules**: if the trace contains a lookup
+by a connection handler that returned registration `k`, then some worker thread for `k` has executed
+its validate step — a worker whose covert address passed the policy and which, if a liveness probe
+was required, was told "not live". -/
+theorem world_visible_only_after_validation (c : Cfg) (ths : List Th)
+    (hstart : ∀ t ∈ ths, t.atStart = true) (sched : List Nat) (k : Key)
+    (h : Ev.looked k true ∈ (({ st := init, ths := ths } : World).run c sched).evs) :
+    ∃ (j : Nat) (tr now : Nat) (probe live : Bool),
+      (({ st := init, ths := ths } : World).run c sched).ths[j]? = some (.ingest k tr now true probe live .done) ∧
+      (probe = true → live = false) := by
+  obtain ⟨j, t, hj, tr, now, probe, live, rfl, hp⟩ := (winv_run c _ sched (winv_init c ths hstart)).looked k h
+  exact ⟨j, tr, now, probe, live, hj, hp⟩
+
+/-! ## whole-thread serialisability: stated, NOT claimed -/
+
+/-- run thread `i` to completion (at most `fuel` steps) -/
+def finishThread (c : Cfg) (w : World) (i : Nat) : Nat → World
+  | 0 => w
+  | fuel + 1 =>
+    match w.ths[i]? with
+    | some t => if t.done then w else finishThread c (w.step c i) i fuel
+    | none => w
+
+/-- the serial execution: each thread runs to completion, in the given order -/
+def serialRun (c : Cfg) (ths : List Th) (order : List Nat) (fuel : Nat) : World :=
+  order.foldl (fun w i => finishThread c w i fuel) { st := init, ths := ths }
+
+def sameRegistry (a b : St) : Prop := ∀ k : Key, a.decoys[k]? = b.decoys[k]? ∧ a.timeouts[k]? = b.timeouts[k]?
+
+/-- FULL-STRENGTH reading of the title ("behave like some serial order" of whole threads): every
+complete interleaved execution ends in the registry state and with the multiset of events of some
+serial order of the threads.  This is NOT a theorem of the code and is not claimed: `exists` / `track`
+and `lookup` / `markActive` are separate critical sections by design (a liveness probe of seconds
+lies between them), and two kinds of schedule have no whole-thread serial equivalent —
+(a) a handler looks a registration up, the sweeper expires it, the handler's activation finds nothing
+(`lost-activation` scenarios: `look 1; rm` without `upd`);
+(b) a worker sees its registration as tracked, the sweeper expires it, the worker's duplicate `track`
+re-creates it unvalidated (`reingest-expired` scenario).
+Both are executed against the real code by the harness (model and code agree on them).  What IS
+proved is `outcome_serialisable_partial`: serialisability at the granularity of critical sections
+plus the clauses the property statement itself enumerates. -/
+def outcome_serialisable_full : Prop :=
+  ∀ (c : Cfg) (ths : List Th) (sched : List Nat), (∀ t ∈ ths, t.atStart = true) →
+    let w := ({ st := init, ths := ths } : World).run c sched
+    w.bad = false → w.ths.all Th.done = true →
+    ∃ (order : List Nat) (fuel : Nat), order.Perm (List.range ths.length) ∧
+      sameRegistry w.st (serialRun c ths order fuel).st ∧ w.evs.Perm (serialRun c ths order fuel).evs
+
+/-- what holds for every thread list and every schedule: the registry is in a state that a serial
+history of critical sections produces (so all of C08 applies), the two maps agree, every
+registration is announced at most once per lifetime and what is announced is valid, and a lookup
+shows only what a worker has validated after passing policy and liveness. -/
+theorem outcome_serialisable_partial (c : Cfg) (ths : List Th) (hstart : ∀ t ∈ ths, t.atStart = true)
+    (sched : List Nat) :
+    let w := ({ st := init, ths := ths } : World).run c sched
+    Reach c w.st ∧ Inv w.st ∧ (∀ k, announcedOncePerLifetime k w.evs) ∧
+    (∀ k, (annSt k w.evs).1 = true → validIn w.st k) ∧
+    (∀ k, Ev.looked k true ∈ w.evs → ∃ (j : Nat) (tr now : Nat) (probe live : Bool),
+      w.ths[j]? = some (.ingest k tr now true probe live .done) ∧ (probe = true → live = false)) :=
+  ⟨interleaving_is_op_serial c _ sched ⟨[], rfl⟩, interleaving_inv c ths sched,
+   fun k => world_announce_once c ths hstart sched k,
+   fun k => world_announced_is_valid c ths hstart sched k,
+   fun k => world_visible_only_after_validation c ths hstart sched k⟩
+
 /-! ## no update is lost -/
 
 /-- the sweeper's second critical section decides on the state it finds: a record is deleted only if
@@ -232,8 +318,51 @@ open CJ.Pipeline
 message is processed, in the buffer, or being processed -/
 theorem pipeline_conservation (cap n : Nat) (acts : List Act) :
     let s := Pipeline.run (Pipeline.init cap n) acts
-    s.received = s.forwarded + s.dropped ∧ s.forwarded = s.processed + s.buf + busyCount s.workers :=
+    s.received = s.forwarded + s.dropped ∧
+      s.forwarded = s.processed + s.rejected + s.buf + busyCount s.workers :=
   cons_run _ acts (cons_init cap n)
+
+/-- a message that does not parse costs the pool nothing: the worker that drew it is idle again (not
+gone), and the message is accounted for as rejected -/
+theorem bad_message_keeps_worker (s : Pipeline.St) (i : Nat) (h : s.workers[i]? = some .busy) :
+    (Pipeline.step s (.bad i)).workers[i]? = some .idle ∧
+    (Pipeline.step s (.bad i)).rejected = s.rejected + 1 ∧
+    (Pipeline.step s (.bad i)).cancelled = s.cancelled := by
+  have hlt : i < s.workers.length := by
+    rcases Nat.lt_or_ge i s.workers.length with h' | h'
+    · exact h'
+    · rw [List.getElem?_eq_none h'] at h; cases h
+  refine ⟨?_, ?_, ?_⟩ <;> simp only [Pipeline.step, h]
+  rw [List.getElem?_set_self hlt]
+
+theorem run_cancelled_false (acts : List Act) (s : Pipeline.St)
+    (h : (Pipeline.run s acts).cancelled = false) : s.cancelled = false := by
+  induction acts generalizing s with
+  | nil => exact h
+  | cons a acts ih =>
+    have h' : (Pipeline.run (Pipeline.step s a) acts).cancelled = false := h
+    exact cancelled_false_of_step s a (ih _ h')
+
+/-- **Workers leave the pool only after a stop request**: in every execution — any mix of good and
+malformed messages, overload, idle periods — as long as no stop was requested all `n` workers are
+still there (idle or busy).  (A worker that returned on a parse error would break this.) -/
+theorem workers_exit_only_after_stop (cap n : Nat) (acts : List Act)
+    (h : (Pipeline.run (Pipeline.init cap n) acts).cancelled = false) :
+    liveCount (Pipeline.run (Pipeline.init cap n) acts).workers = n := by
+  have gen : ∀ (acts : List Act) (s : Pipeline.St), (Pipeline.run s acts).cancelled = false →
+      liveCount (Pipeline.run s acts).workers = liveCount s.workers := by
+    intro acts
+    induction acts with
+    | nil => intro s _; rfl
+    | cons a acts ih =>
+      intro s hc
+      have hc' : (Pipeline.run (Pipeline.step s a) acts).cancelled = false := hc
+      have h1 := ih (Pipeline.step s a) hc'
+      have h2 := liveCount_step s a (run_cancelled_false (a :: acts) s hc)
+      show liveCount (Pipeline.run (Pipeline.step s a) acts).workers = _
+      rw [h1, h2]
+  rw [gen acts _ h]
+  simp [Pipeline.init, liveCount]
 
 /-- the distributor never blocks on the hand-off: whenever a message is available its loop
 iteration completes — the message is counted, and forwarded or dropped — whatever the workers and
@@ -350,6 +479,7 @@ theorem done_means_all_exited (s : Pipeline.St) (a : Act) (hd : s.dist ≠ .done
   | take i => simp only [Pipeline.step] at h; split at h <;> (try split at h) <;> exact absurd h hd
   | exit i => simp only [Pipeline.step] at h; split at h <;> (try split at h) <;> exact absurd h hd
   | finish i => simp only [Pipeline.step] at h; split at h <;> exact absurd h hd
+  | bad i => simp only [Pipeline.step] at h; split at h <;> exact absurd h hd
 
 /-! ## non-vacuity -/
 
@@ -364,9 +494,12 @@ def w0 : World :=
             .handler ("10.0.0.1", "aa") 1 .start] }
 
 example : Reach cfg0 (w0.run cfg0 [0, 1, 0, 1, 2, 0, 0, 0, 3, 3, 1]).st :=
-  interleaving_is_serial cfg0 w0 _ ⟨[], rfl⟩
+  interleaving_is_op_serial cfg0 w0 _ ⟨[], rfl⟩
 
 example : (Pipeline.init 1 2).cancelled = false ∧ (Pipeline.init 1 2).dist = .loop := ⟨rfl, rfl⟩
 example : mu (Pipeline.step (Pipeline.init 1 2) .cancel) = 4 := by decide
+example : (Pipeline.run (Pipeline.init 1 2) [.dist true, .bad 0, .dist true, .finish 0]).rejected = 1 ∧
+    (Pipeline.run (Pipeline.init 1 2) [.dist true, .bad 0, .dist true, .finish 0]).processed = 1 := by decide
+example : ∀ t ∈ w0.ths, t.atStart = true := by decide
 
 end CJ.Props.C09
